@@ -48,6 +48,18 @@ class Graph:
                     self.nodes_.append(n)
             self.edges_[(a, b)] = {"latency": kw["latency"]}
             return None
+        if name == "out_degree":
+            return sum(1 for (a, b) in self.edges_ if a == args[0])
+        if name == "in_degree":
+            return sum(1 for (a, b) in self.edges_ if b == args[0])
+        if name == "has_edge":
+            return (args[0], args[1]) in self.edges_
+        if name == "has_node":
+            return args[0] in self.nodes_
+        if name == "successors":
+            return [b for (a, b) in self.edges_ if a == args[0]]
+        if name == "predecessors":
+            return [a for (a, b) in self.edges_ if b == args[0]]
         raise Unsupported("DiGraph." + name)
 
     def sym_getattr(self, ex, attr):
@@ -119,7 +131,9 @@ def cp_unit(nins):
         ex.abstract["nx.algorithms.dag.dag_longest_path"] = longest_path_spec
         ex.abstract["nx.utils.pairwise"] = lambda ex_, so, a, kw: list(zip(a[0], a[0][1:]))
         pairs = [(i, j) for i in range(nins) for j in range(i + 1, nins)]
-        for loads in itertools.product((False, True), repeat=nins):
+        for loads, twice in itertools.product(itertools.product((False, True), repeat=nins), (False, True)):
+            if twice and nins == 3:
+                continue
             for emask in itertools.product((False, True), repeat=len(pairs)):
                 lat = [z3.Real(f"lat{i}") for i in range(nins)]
                 lwl = [z3.Real(f"lwl{i}") for i in range(nins)]
@@ -145,6 +159,8 @@ def cp_unit(nins):
                         edges[(a + 1, b + 1)] = {"latency": SNum(w, False)}
                     selfo = SObj("KernelDG", kernel=kernel, dg=Graph(nodes, edges))
                     ex.extra["kernel"] = kernel
+                    if twice:  # the report generators ask twice (text report, then --yaml-out / --export-graph)
+                        ex.call_method("KernelDG", "get_critical_path", selfo, [])
                     return ex.call_method("KernelDG", "get_critical_path", selfo, [])
 
                 paths = ex.explore(run, pre)
@@ -189,7 +205,7 @@ def cp_unit(nins):
                     return dict(replay="c04_cp", key="cp", args=dict(lat=[fr(x) for x in lat], lwl=[fr(x) for x in lwl], loads=list(loads),
                                                                     edges=[[a, b, fr(w)] for (a, b), w in ew.items()]))
 
-                res.add_paths(paths, post, concretize=conc, kind=f"n{nins}/loads{''.join('1' if x else '0' for x in loads)}/edges{''.join('1' if x else '0' for x in emask)}", label="Pb")
+                res.add_paths(paths, post, concretize=conc, kind=f"n{nins}/loads{''.join('1' if x else '0' for x in loads)}/edges{''.join('1' if x else '0' for x in emask)}{'/second-call' if twice else ''}", label="Pb")
         return res
 
     return unit
